@@ -241,7 +241,8 @@ def layout(rng, toks, comment_ok=True):
             gaps.append(rng.choice(['', '', '', '', ' ', '  ']) if rng else '')
             break
         a, b = tok_text(tk)[-1], tok_text(toks[i + 1])[0]
-        need = (a in WORD and b in WORD) or (a == '`' and b == '`')
+        fuse = toks[i + 1][0] == 'T' and toks[i + 1][1] in 'pe' and (a in WORD or a == '`')      # `not{X}` would become `notself._X[t]` (finding)
+        need = (a in WORD and b in WORD) or (a == '`' and b == '`') or fuse
         if rng is None:
             tight = tk[0] in ('F', '(') or toks[i + 1][0] == ')' or (toks[i + 1] == ['O', ','])
             gaps.append(' ' if need or not tight else '')
@@ -650,7 +651,7 @@ def enum_text(tier):
         layouts = [layout(None, toks)[0]]                      # one blank around operators, none inside brackets
         if len(body) <= 4 or body[0][0] == 'F':                # and the tightest layout: a blank only between two word characters
             texts = [tok_text(tk) for tk in toks]
-            layouts.append([' ' if (a[-1] in WORD and b[0] in WORD) else '' for a, b in zip(texts, texts[1:])] + [''])
+            layouts.append([' ' if (a[-1] in WORD and (b[0] in WORD or b[0] in '{<')) else '' for a, b in zip(texts, texts[1:])] + [''])
         for gaps in layouts:
             st = {'toks': toks, 'gaps': gaps, 'comment': ''}
             out.append({'kind': 'text', 'script': stmt_text(st), 'stmts': [st], 'enum': True})
@@ -682,6 +683,7 @@ def fixed_cases():
         _raw('Y = exp + exp(X)', [['Y', 'Y[t] = exp[t] + exp(X[t])', 'self._Y[t] = self._exp[t] + np.exp(self._X[t])']], ['Y', 'exp', 'X']),                 # 19
         _raw('Y = X [-1]', [['Y', 'Y[t] = X[t-1]', 'self._Y[t] = self._X[t-1]']], ['Y', 'X']),                                                                  # 20
         _raw('Y = {{a}}', [['Y', 'Y[t] = {a[t]}', 'self._Y[t] = {self._a[t]}']], ['Y', 'a']),
+        _raw('Y = 1 if not{X} > 0 else 2', [['Y', 'Y[t] = 1 if not X[t] > 0 else 2', 'self._Y[t] = 1 if not self._X[t] > 0 else 2']], ['Y', 'X']),          # NEW: keyword fused
         _raw('Y = X if X > 1 else np.sqrt(`self.k`)', [['Y', 'Y[t] = X[t] if X[t] > 1 else np.sqrt(`self.k`)', 'self._Y[t] = self._X[t] if self._X[t] > 1 else np.sqrt(self.k)']], ['Y', 'X']),
     ]
     d4 = lambda *rows: {nm: [lib.fhex(x) for x in r] for nm, r in rows}        # noqa: E731
@@ -920,7 +922,8 @@ def _raw_classes(s):
     brace = '{{' in body or '}}' in body          # doubled braces are str.format escapes; a stray single brace is a ParserError (no finding)
     called = set(re.findall(r'(?<![A-Za-z_0-9.])(%s)\s*\(' % IDENT, body))
     plain = set(re.findall(r'(?<![A-Za-z_0-9.])(%s)(?![A-Za-z_0-9.]|\s*\()' % IDENT, body))
-    return f20, brace, bool(called & plain)
+    fused = re.search(r'(?<![A-Za-z_0-9])(?:%s)[{<]' % '|'.join(KWS), body) is not None
+    return f20, brace, bool(called & plain), fused
 
 
 def guard(case, obs):
@@ -1020,7 +1023,7 @@ def oracle(case, obs):
         want = [(y, eq, code, False) for y, eq, code in case.get('expect', [])]
     else:
         want = [(st['toks'][0][2], expected_text(st, 'equation'), expected_text(st, 'code'), any(is_f20(tk) for tk in st['toks'])) for st in case['stmts']]
-    f20_raw, brace_raw, _ = _raw_classes(case['script']) if kind == 'raw' else (False, False, False)
+    f20_raw, brace_raw, _, fused_raw = _raw_classes(case['script']) if kind == 'raw' else (False, False, False, False)
     for y, eq, code, f20 in want:
         s = sym.get(y)
         if s is None or s[1] != 'ENDOGENOUS' or s[3] is None:
@@ -1031,6 +1034,8 @@ def oracle(case, obs):
             if (f20 or f20_raw) and split:
                 skip_values = True
                 bad('code|space-before-index', 'a blank between a name and its index bracket: the lag/lead is lost, code %r instead of %r' % (s[3], code))
+            elif fused_raw and re.search(r'(?:%s)self\._' % '|'.join(KWS), s[3]) and s[3].replace('self._', ' self._').split() == code.replace('self._', ' self._').split():
+                bad('code|keyword-fused-with-term', 'a {parameter} / <error> term directly after a keyword: in the code they fuse into one identifier: %r instead of %r' % (s[3], code))
             elif brace_raw and any(x not in s[3] for x in re.findall(r'self\._\w+\[t[^\]]*\]', code)):
                 bad('code|brace-outside-parameter', 'braces outside a parameter term are consumed by str.format: code %r instead of %r' % (s[3], code))
             else:
